@@ -17,6 +17,7 @@ import (
 	"path/filepath"
 	"reflect"
 	"runtime"
+	"runtime/debug"
 	"runtime/pprof"
 	"sort"
 	"strings"
@@ -47,6 +48,14 @@ type raceWitness struct {
 }
 
 func main() {
+	// the race build pays dearly for every fresh page (shadow memory); memory is plentiful, GC less often
+	debug.SetGCPercent(400)
+	if p := os.Getenv("C18_CPUPROFILE"); p != "" { // development aid
+		if f, err := os.Create(p); err == nil {
+			_ = pprof.StartCPUProfile(f)
+			stopProfile = func() { pprof.StopCPUProfile(); f.Close() }
+		}
+	}
 	r := ev.Start("C18", "exploration")
 	r.Rule("codec: seeded reflective values of every regattapb message type (all oneof arms incl. none, optional fields unset/zero/value, nil/empty/nasty/large bytes, nested sequences), " +
 		"decoded by the registered codec into a fresh object and, for Command and SnapshotChunk, into objects recycled with ResetVT / ReturnToVTPool after holding a different larger message; " +
@@ -141,6 +150,7 @@ func main() {
 	}
 
 	runAll(r, ce, se)
+	stopProfile()
 	g.close()
 	raceVerdicts(r)
 
@@ -191,7 +201,7 @@ func main() {
 	r.FloorCount("compressor_round_trips_ge_1MiB", int64(r.Pick(30, 500)))
 	r.FloorDistinct("compressor_goroutine_counts", 3)
 	r.FloorCount("streams", int64(r.Pick(140, 4500)))
-	r.FloorCount("streams_with_boundary_inside_length_prefix", int64(r.Pick(30, 1000)))
+	r.FloorCount("streams_with_boundary_inside_length_prefix", int64(r.Pick(40, 1200)))
 	r.FloorDistinct("stream_variants", int64(r.Pick(12, 20)))
 	r.FloorNontrivial(int64(r.Pick(300, 20000)))
 	r.FloorCount("oracles_agree", 1)
@@ -200,6 +210,8 @@ func main() {
 	}
 	r.Finish()
 }
+
+var stopProfile = func() {}
 
 func scratchDir() string {
 	if d := os.Getenv("SCRATCH"); d != "" {
@@ -218,8 +230,20 @@ func runAll(r *ev.Run, ce *codecEnv, se *streamEnv) {
 	// migrate between goroutines and uses
 	cc := ce.plan()
 	sc := streamPlanCases(r)
+	// hand-written recycling pairs first and alone: a failure there gets the minimal witness
+	for len(cc) > 0 && cc[0].Probe > 0 {
+		ce.runCodecCase(cc[0])
+		cc = cc[1:]
+	}
+	parts := os.Getenv("C18_PARTS") // development aid: run only some parts (coverage floors will then fail)
+	if parts != "" && !strings.Contains(parts, "codec") {
+		cc = nil
+	}
+	if parts != "" && !strings.Contains(parts, "stream") {
+		sc = nil
+	}
 	var jobs []job
-	step := len(cc)/len(sc) + 1
+	step := len(cc)/(len(sc)+1) + 1
 	si := 0
 	for i := range cc {
 		if i%step == 0 && si < len(sc) {
@@ -242,23 +266,51 @@ func runAll(r *ev.Run, ce *codecEnv, se *streamEnv) {
 		go func() {
 			defer wg.Done()
 			for j := range ch {
+				t0 := time.Now()
 				if j.codec != nil {
 					ce.runCodecCase(*j.codec)
+					r.Count("worker_ms_codec_cases", time.Since(t0).Milliseconds())
 				} else {
 					runStreamCase(se, *j.stream)
+					r.Count("worker_ms_stream_cases", time.Since(t0).Milliseconds())
 				}
 			}
 		}()
 	}
+	// compressor batches run in two lanes (MiB-size payloads / the rest) beside the worker pool: more
+	// interleaving on the shared pools, and the long MiB-size trips do not serialise the run
+	var lanes sync.WaitGroup
+	if parts == "" || strings.Contains(parts, "compress") {
+		var big, small []compBatch
+		for _, b := range compPlan(r) {
+			if b.Big {
+				big = append(big, b)
+			} else {
+				small = append(small, b)
+			}
+		}
+		for _, lane := range [][]compBatch{big, small} {
+			lanes.Add(1)
+			go func(lane []compBatch) {
+				defer lanes.Done()
+				t0 := time.Now()
+				for _, b := range lane {
+					runCompBatch(r, b)
+				}
+				if len(lane) > 0 {
+					r.Extra(fmt.Sprintf("wall_s_compressor_lane_big=%v", lane[0].Big), time.Since(t0).Seconds())
+				}
+			}(lane)
+		}
+	}
+	t0 := time.Now()
 	for _, j := range jobs {
 		ch <- j
 	}
 	close(ch)
 	wg.Wait()
-
-	for _, b := range compPlan(r) {
-		runCompBatch(r, b)
-	}
+	r.Extra("wall_s_codec_and_stream_cases", time.Since(t0).Seconds())
+	lanes.Wait()
 }
 
 // ---------------------------------------------------------------------------------------------
